@@ -382,8 +382,14 @@ class WSStream:
                 if self.connection.state == ConnectionState.REMOTE_CLOSING:
                     # The client has initiated the close, tell the app why
                     self.remote_close_code = int(event.code)
-                    await self._send_wsproto_event(event.response())
-                await self.send(StreamClosed(stream_id=self.stream_id))
+                    # The reply (after which the stream is closed) is sent
+                    # as the pongs are, and for the same reason
+                    self.pongs.append(event.response())
+                    if not self.sending_pongs:
+                        self.sending_pongs = True
+                        self.task_group.spawn(self._send_pongs)
+                else:
+                    await self.send(StreamClosed(stream_id=self.stream_id))
 
     async def _send_error_response(self, status_code: int) -> None:
         was_closed = self.closed
@@ -407,7 +413,7 @@ class WSStream:
 
     async def _send_wsproto_event(self, event: WSProtoEvent) -> None:
         if isinstance(event, CloseConnection):
-            while len(self.pongs) > 0:
+            while len(self.pongs) > 0 and not isinstance(self.pongs[0], CloseConnection):
                 # The pings that came before the close are still owed a pong
                 await self._send_wsproto_event(self.pongs.pop(0))
         try:
@@ -460,7 +466,10 @@ class WSStream:
     async def _send_pongs(self) -> None:
         try:
             while len(self.pongs) > 0 and not self.closed:
-                await self._send_wsproto_event(self.pongs.pop(0))
+                event = self.pongs.pop(0)
+                await self._send_wsproto_event(event)
+                if isinstance(event, CloseConnection):
+                    await self.send(StreamClosed(stream_id=self.stream_id))
         finally:
             self.sending_pongs = False
 
